@@ -17,7 +17,8 @@ LEVEL = "exploration"
 BUDGET = {"quick": 250000, "thorough": 5000000}
 RULE = (
     "each run draws a manager kind (generator-based via contextmanager / class-based ContextDecorator), whether "
-    "it suppresses, 1..3 caller tasks with 1..3 sequential calls each (body returns or raises), suspension counts "
+    "it suppresses, the decorated coroutine function (plain or a method called through its instance, called with keyword "
+    "arguments named like the machinery's own parameters, raising an exception object that may test false), 1..3 caller tasks with 1..3 sequential calls each (body returns or raises), suspension counts "
     "for enter/body/exit, optionally one task cancelled at its c-th suspension; calls of different tasks overlap "
     "as the scheduler decides. Oracle per call: events are exactly enter -> body -> exit on one context, exit "
     "receives the body's exception object (or None), the caller gets the body's result / exception (None if "
@@ -29,7 +30,7 @@ ASSUMPTIONS = [
     "class-based ContextDecorator without _recreate_cm re-uses one instance by documentation; only pairing and routing are judged there",
 ]
 PROBES = ("concurrent_overlap", "sequential_reuse", "body_raises", "suppressed", "cancel_in_body", "cancel_in_enter",
-          "cancel_in_exit", "class_based", "generator_based")
+          "cancel_in_exit", "class_based", "generator_based", "decorated_method", "clashing_keyword_names", "falsy_exception")
 
 
 def gen(ch):
@@ -42,7 +43,22 @@ def gen(ch):
     sc.cancel = ch.draw(sc.ntasks) if ch.chance(1, 3) else None
     sc.interrupt = ch.draw(4)
     sc.backend = pick_backend(ch, 1, 5)
+    # the decorated function: a plain function or a method called through its instance; keyword arguments
+    # whose names the decorator machinery may use itself; a body exception that tests false
+    sc.as_method = ch.chance(1, 3)
+    names = ("func", "cm", "self", "args", "kwds", "instance")
+    sc.extra = {names[ch.draw(len(names))]: i for i in range(ch.draw(3))}
+    if sc.as_method:
+        sc.extra.pop("self", None)
+    sc.falsy_exc = ch.chance(1, 4)
     return sc
+
+
+class FalsyFault(InjectedFault):
+    """An exception object that tests false: an exception all the same"""
+
+    def __len__(self):
+        return 0
 
 
 def execute(st, ctx):
@@ -111,16 +127,34 @@ def execute(st, ctx):
         decorator = Manager()
 
     raised = {}
+    problems = []
+    fault_type = FalsyFault if sc.falsy_exc else InjectedFault
 
-    @decorator
-    async def body(call_id, fails):
+    async def body_impl(call_id, fails, extra):
         log.append(("body", call_id, sim.current.id))
+        if extra != sc.extra:
+            problems.append(("arguments", call_id, repr(extra)))
         await pause(sc.susp[1], "body")
         if fails:
-            err = InjectedFault("body%r" % (call_id,))
+            err = fault_type("body%r" % (call_id,))
             raised[call_id] = err
             raise err
         return ("result", call_id)
+
+    if sc.as_method:
+        class Service:
+            @decorator
+            async def body(self, call_id, fails, /, **extra):
+                if self is not service:
+                    problems.append(("self", call_id, repr(self)))
+                return await body_impl(call_id, fails, extra)
+
+        service = Service()
+        body = service.body
+    else:
+        @decorator
+        async def body(call_id, fails, /, **extra):
+            return await body_impl(call_id, fails, extra)
 
     results = {}
 
@@ -129,7 +163,7 @@ def execute(st, ctx):
             call_id = (ti, n)
             log.append(("call", call_id, sim.current.id))
             try:
-                results[call_id] = ("ok", await body(call_id, fails))
+                results[call_id] = ("ok", await body(call_id, fails, **sc.extra))
             except InjectedFault as err:
                 results[call_id] = ("raised", err)
             except CANCEL:
@@ -144,7 +178,8 @@ def execute(st, ctx):
     sig = ("generator" if sc.kind == 0 else "class", "suppress" if sc.suppress else "propagate")
 
     def describe():
-        return {"backend": sc.backend, "manager": sig[0], "suppress": sc.suppress, "suspensions": sc.susp, "calls": sc.calls,
+        return {"backend": sc.backend, "manager": sig[0], "suppress": sc.suppress, "decorated": "method" if sc.as_method else "function",
+                "keyword_arguments": sc.extra, "body_exception_tests_false": sc.falsy_exc, "suspensions": sc.susp, "calls": sc.calls,
                 "cancel": {"task": sc.cancel, "fired_at": sim.cancel_fired_at} if sc.cancel is not None else None,
                 "log": [repr(e[:4]) for e in log], "results": {repr(k): repr(v) for k, v in results.items()},
                 "interleaving": [(t >> 2, ("pause", "sleep", "lock_wait", "done")[t & 3]) for t in sim.trace][:120]}
@@ -155,6 +190,8 @@ def execute(st, ctx):
         for t in tasks:
             if t.error is not None and t.error is not t.cancelled_with:
                 out.violate("C15.task_failed", sig + (type(t.error).__name__,), dict(describe(), error=repr(t.error)))
+        for prob in problems[:1]:
+            out.violate("C15.body_got_other_" + prob[0], sig, dict(describe(), call=prob[1], got=prob[2]))
         if sc.kind == 0 and any(r != expect_args for r in received):
             out.violate("C15.recreated_manager_got_other_arguments", sig,
                         dict(describe(), received=[repr(r) for r in received], expected=repr(expect_args)))
@@ -234,8 +271,14 @@ def execute(st, ctx):
         if where in ("body", "enter", "exit"):
             out.probes["cancel_in_" + where] = 1
     out.probes["class_based" if sc.kind else "generator_based"] = 1
+    if sc.as_method:
+        out.probes["decorated_method"] = 1
+    if sc.extra:
+        out.probes["clashing_keyword_names"] = 1
+    if sc.falsy_exc and any(f for p in sc.calls for f in p):
+        out.probes["falsy_exception"] = 1
     out.nontrivial = overlap or any(len(p) >= 2 for p in sc.calls)
-    out.shape = (sc.backend, sc.kind, sc.suppress, tuple(sc.susp), tuple(tuple(p) for p in sc.calls), sc.cancel, hash(tuple(sim.trace)))
+    out.shape = (sc.backend, sc.kind, sc.suppress, sc.as_method, tuple(sorted(sc.extra)), sc.falsy_exc, tuple(sc.susp), tuple(tuple(p) for p in sc.calls), sc.cancel, hash(tuple(sim.trace)))
     if ctx.want_sample:
         out.sample = describe()
     if ctx.want_log:
